@@ -69,7 +69,7 @@ T = {
 
 # properties with a check built so far (the rest are listed under not_applicable as pending)
 import os
-BUILT = [p for p in sorted(T) if os.path.exists(f"/verif/harness/props/src/bin/{p.lower()}.rs")]
+BUILT = [l.strip() for l in open("/verif/driver/built.txt") if l.strip()]
 
 checks = []
 for pid in BUILT:
